@@ -11,6 +11,7 @@ type xferCase struct {
 	Name string
 	Spec *xferSpec
 	K    int // fault budget for this case
+	D    int // schedule-deviation budget for this case
 }
 
 var allFaults = faultSet{Drop: true, Dup: true, Late: true, Swap: true}
@@ -208,6 +209,44 @@ func famZ4(rbufs []uint32, counts []int) []xferCase {
 				Spec: &xferSpec{A: a, B: b, KillIdx: []int{0}, KillN: 1, Streams: []streamSpec{{SID: 1, From: 0, Msgs: msgs}}},
 			})
 		}
+	}
+	return out
+}
+
+// famZ5: timer-versus-packet coincidence.  The one-way delay is chosen so that the SACK for
+// the first message reaches the sender at the very instant its T3-rtx expires (RTO.initial
+// 1 s = 2*delay + delayed-ack 200 ms, or 2*delay with an immediate SACK); the schedule
+// deviation budget then orders the expiry callback against the SACK handler both ways, at
+// every lock acquisition.  A later message loses its first transmissions, so only a T3-rtx
+// that still works repairs it.
+func famZ5(modes []modeSpec, delays []time.Duration, kills []int, d int) []xferCase {
+	var out []xferCase
+	for _, mode := range modes {
+		for _, dl := range delays {
+			for _, kn := range kills {
+				a := withBase(mode.A, 228, 0xFFFFFFFE, 4000)
+				b := withBase(mode.B, 228, 9, 4000)
+				out = append(out, xferCase{
+					Name: fmt.Sprintf("Z5/%s/delay%v/kill%d", mode.Name, dl, kn),
+					D:    d,
+					Spec: &xferSpec{A: a, B: b, Delay: dl, SuspendTimers: true, Kill: []killRule{{SID: 1, Msg: 1, Frag: -1, N: kn}},
+						Horizon: 200 * time.Second, DrainWait: 120 * time.Second,
+						Streams: []streamSpec{{SID: 1, From: 0, Gap: 5 * time.Second, Msgs: []msgSpec{{Size: 10, PPI: 53}, {Size: 11, PPI: 53}}}}},
+				})
+			}
+		}
+	}
+	return out
+}
+
+// withSuspend re-labels cases so that timer expiries may be postponed past the next packet
+// delivery (d schedule deviations per execution) in addition to their fault budget.
+func withSuspend(cases []xferCase, d int) []xferCase {
+	var out []xferCase
+	for _, c := range cases {
+		sp := *c.Spec
+		sp.SuspendTimers = true
+		out = append(out, xferCase{Name: c.Name + "/suspend", Spec: &sp, K: c.K, D: d})
 	}
 	return out
 }
